@@ -238,7 +238,7 @@ SigBegin ==
        /\ rk = "agg" => st.nagg > 0
        /\ \E r \in (IF rk = "void" THEN {[k |-> "void"]}
                     ELSE IF rk = "sc" THEN {[k |-> "sc", n |-> x] : x \in SigScalars}
-                    ELSE {[k |-> "agg", i |-> x] : x \in 1..st.nagg}) :
+                    ELSE {[k |-> "agg", i |-> RandomElement(1..st.nagg)]}) :      \* simulation only: one random aggregate
             st' = [st EXCEPT !.ret = r, !.va = va]
        /\ want' = np
   /\ ms' = <<>> /\ outs' = <<>> /\ phase' = "build" /\ pick' = ""
@@ -252,7 +252,7 @@ SigPick ==
   /\ UNCHANGED <<st, ms, outs, pool, phase, want>>
 
 SigRefs(c) == CASE c = "sc" -> {[k |-> "sc", n |-> x] : x \in SigScalars} \cup {[k |-> "valist"]}
-                [] c = "agg" -> {[k |-> "agg", i |-> x] : x \in 1..st.nagg}
+                [] c = "agg" -> {[k |-> "agg", i |-> RandomElement(1..st.nagg)]}     \* simulation only (enumerating 10^4 successors per step is too slow)
                 [] c = "arr" -> {[k |-> "arr", n |-> x] : x \in {"char", "int", "double"}}
 
 SigAdd ==
